@@ -46,10 +46,34 @@ def run(ctx):
             else:
                 n += 1
                 ok = shp == any_shape.get(kind)
+                if kind in ('Decimal', 'BigDecimal') and any_shape.get(kind) == {'DEC'}:
+                    # a decimal is its bytes: length-delimited (bytes decimal, big-decimal) or the fixed's size
+                    ok = bool(shp) and shp <= ({'LD', 'SIZED'} if kind == 'Decimal' else {'LD'})
                 # F4/F8 have no from_le on the ignoring path; compare sizes only
                 ctx.ob('SKIPPAIR', 'ignored_any/%s' % kind, ok, short_loc(igb.term(r.switch_bb).get('span') or igb.span),
                        'ignoring %s reads %s; reading it reads %s' % (kind, sorted(shp), sorted(any_shape.get(kind, []))))
     ctx.floor('SKIPPAIR', 'kinds with a dedicated skipping arm', n, 7)
+    # skipping must succeed wherever some way of reading does.  Two places where forwarding the ignored value to the
+    # reading path is NOT neutral:
+    #  - decimals: the reading path converts the bytes to a number of the target's width (96-bit mantissa for the default
+    #    presentation), so ignoring 10^30 fails although reading it as i128 works - the ignoring path takes the bytes
+    #    (length-delimited, or the fixed's size) without converting
+    #  - unions: the reading path enters the chosen branch with deserialize_any, dropping the "ignored" hint for everything
+    #    below - the ignoring path reads the discriminant and enters the branch with deserialize_ignored_any
+    cell = {}
+    for variants, r, toks in igc:
+        for kind in variants:
+            cell[kind] = [t[0] for t in toks]
+    for kind in ('Decimal', 'BigDecimal'):
+        toks = cell.get(kind, [])
+        conv = any(t[0] == 'DECIMAL' for t in toks) or any(t[0] == 'FWD' for t in toks)
+        raw = any(t[0] in ('LENDELIM', 'SIZED', 'SLICE', 'FIXED', 'SKIP') for t in toks)
+        ctx.ob('SKIPPAIR', 'ignored_any/%s/skipped-not-converted' % kind, raw and not conv, short_loc(igb.span),
+               'ignoring a %s takes its bytes without converting them to a number: %s (cell: %s)' % (kind, raw and not conv, sorted({t[0] for t in toks})))
+    toks = cell.get('Union', [])
+    keeps = any(t[0] == 'DISC' for t in toks) and [t[1] for t in toks if t[0] == 'FWD'] == ['deserialize_ignored_any']
+    ctx.ob('SKIPPAIR', 'ignored_any/Union/keeps-ignoring', keeps, short_loc(igb.span),
+           'ignoring a union reads the discriminant and enters the branch with deserialize_ignored_any: %s (cell: %s)' % (keeps, sorted({str(t) for t in toks})))
     # map-key deserializer
     sa = fn_by_label(f, '<de::deserializer::types::blocks::StringDeserializer as serde_core::de::Deserializer>::deserialize_any')
     si = fn_by_label(f, '<de::deserializer::types::blocks::StringDeserializer as serde_core::de::Deserializer>::deserialize_ignored_any')
